@@ -1,22 +1,31 @@
 (* Denorm.v — feeding a normalised equation back to the parser: vocabulary.  Definitions only.
 
    A normalised equation is a token list (GNorm.neq).  Its de-normalised text writes every NAME[t], NAME[t+k], NAME[t-k] as
-   NAME[0], NAME[+k], NAME[-k] (property C14) and leaves everything else as it is.  `dq_ok` collects the decidable
-   conditions under which DenormFacts.normal_form_fixed_point holds. *)
+   NAME[0], NAME[+k], NAME[-k] (property C14; layout `canon`) — or, more generally, with blanks inside the index bracket and
+   with or without the "+" of a lead, as a `layout` says — and leaves everything else as it is.  `dq_ok` collects the
+   decidable conditions under which DenormFacts.normal_form_fixed_point holds. *)
 From Coq Require Import String Ascii List Bool Arith ZArith.
 Import ListNotations.
 Require Import Generated PyBase PyStr Lex Format Symbols Split Merge ParseEq GLex GNorm LayoutNorm.
 Open Scope string_scope.
 
 Definition dz (k : Z) : string := if (0 <? k)%Z then "+" ++ string_of_Z k else string_of_Z k.
-Definition didx (i : pidx) : string := match i with IInt k => dz k | IStr s => s end.
-Definition dtext (x : ntok) : string :=
+
+(* how one term is written: blanks after "[", blanks before "]", and whether a lead carries its "+".  The layout is a
+   function of the term (name, index): every theorem holds for EVERY such function. *)
+Definition layout : Type := string -> pidx -> string * string * bool.
+Definition canon : layout := fun _ _ => ("", "", true).        (* NAME[0], NAME[+k], NAME[-k] *)
+
+Definition ibody (plus : bool) (i : pidx) : string :=
+  match i with IInt k => if plus then dz k else string_of_Z k | IStr s => s end.
+Definition didx (lay : layout) (name : string) (i : pidx) : string := let '(_, _, plus) := lay name i in ibody plus i.
+Definition dtext (lay : layout) (x : ntok) : string :=
   match x with
-  | NTerm name i => name ++ "[" ++ didx i ++ "]"
+  | NTerm name i => let '(w1, w2, plus) := lay name i in name ++ "[" ++ w1 ++ ibody plus i ++ w2 ++ "]"
   | _ => ntok_text x
   end.
-Fixpoint dflat (l : list ntok) : string := match l with [] => "" | x :: r => dtext x ++ dflat r end.
-Definition denorm_text (q : neq) : string := dflat (nlhs q) ++ "=" ++ dflat (nrhs q).
+Fixpoint dflat (lay : layout) (l : list ntok) : string := match l with [] => "" | x :: r => dtext lay x ++ dflat lay r end.
+Definition denorm_text (lay : layout) (q : neq) : string := dflat lay (nlhs q) ++ "=" ++ dflat lay (nrhs q).
 
 (* the Term that parse_terms builds for a token (ty = what a VARIABLE becomes on this side of the equation) *)
 Definition tok_term (ty : ptype) (x : ntok) : option term :=
@@ -55,35 +64,42 @@ Fixpoint ttemplate (l : list ntok) : string :=
   end.
 
 (* one token re-lexes as itself in the de-normalised text *)
-Definition dtok_ok (pw : bool) (x : ntok) (rest : string) : bool :=
+Definition dtok_ok (lay : layout) (pw : bool) (x : ntok) (rest : string) : bool :=
   match x with
-  | NTerm name i => is_ident name && kw_free name && idx_ok (didx i) &&
-                    match i with
-                    | IInt k => negb (Nat.ltb int_max_str_digits (count_digits (dz k)))       (* int() digit limit *)
-                    | IStr s => quoted_by "'" s || quoted_by """" s
-                    end
+  | NTerm name i =>
+      let '(w1, w2, plus) := lay name i in
+      is_ident name && kw_free name && idx_ok (ibody plus i) && all_chars is_space w1 && all_chars is_space w2 &&
+      match i with
+      | IInt k => negb (Nat.ltb int_max_str_digits (count_digits (dz k)))       (* int() digit limit *)
+      | IStr s => quoted_by "'" s || quoted_by """" s
+      end
   | _ => ntok_ok pw x rest
   end.
-Fixpoint dwf_k (pw : bool) (l : list ntok) (k : string) : bool :=
+Fixpoint dwf_k (lay : layout) (pw : bool) (l : list ntok) (k : string) : bool :=
   match l with
   | [] => true
-  | x :: r => dtok_ok pw x (dflat r ++ k) && dwf_k (last_word pw (dtext x)) r k
+  | x :: r => dtok_ok lay pw x (dflat lay r ++ k) && dwf_k lay (last_word pw (dtext lay x)) r k
   end.
 
 Definition text_char_ok (c : ascii) : bool :=
   negb (is_linesep c) && negb (Ascii.eqb c "#") && negb (Ascii.eqb c "{") && negb (Ascii.eqb c "}").
-Definition no_kw (l : list ntok) : bool := forallb (fun x => match x with NKw _ => false | _ => true end) l.
 
-(* the conditions of the fixed-point theorem: a single assigned term and blanks on the left; the right-hand side re-lexes
-   token by token; no line separator, "#" or brace anywhere; round brackets balanced; the character skeleton is in normal form *)
-Definition dq_ok (q : neq) : bool :=
+(* the conditions of the fixed-point / layout theorem: a single assigned term (written without blanks inside its bracket:
+   finding #22) and blanks on the left; the right-hand side re-lexes token by token; no line separator, "#" or brace
+   anywhere; round brackets balanced; the character skeleton is in normal form *)
+Definition dq_ok (lay : layout) (q : neq) : bool :=
   match nlhs q with
   | NTerm y (IInt ky) :: ws =>
       is_ident y && kw_free y && negb (Nat.ltb int_max_str_digits (count_digits (dz ky))) &&
+      (let '(w1, w2, _) := lay y (IInt ky) in match w1, w2 with "", "" => true | _, _ => false end) &&
       forallb (fun x => match x with NChr c => is_space c | _ => false end) ws &&
-      dwf_k false (nrhs q) "" &&
-      all_chars text_char_ok (denorm_text q) &&
-      match count_parens 0 (denorm_text q) with Some 0 => true | _ => false end &&
+      dwf_k lay false (nrhs q) "" &&
+      all_chars text_char_ok (denorm_text lay q) &&
+      match count_parens 0 (denorm_text lay q) with Some 0 => true | _ => false end &&
       normal (ttemplate (nlhs q ++ NChr "=" :: nrhs q))
   | _ => false
   end.
+
+(* the canonical de-normalisation of the property text, for the extracted driver *)
+Definition dq_ok_canon (q : neq) : bool := dq_ok canon q.
+Definition denorm_canon (q : neq) : string := denorm_text canon q.
